@@ -17,7 +17,7 @@
    objects (harness/replay_frame.cpp): sizes, symbol order, index_of, resolve and home frame must be equal.            *)
 EXTENDS Integers, Sequences, FiniteSets, TLC, Json, SequencesExt
 
-CONSTANTS MaxOps, MaxSyms
+CONSTANTS MaxOps, MaxSyms, Closed      \* Closed: no bound on the number of operations, nothing logged (the sizes bound the state space)
 Names == {"a", "b", ""}            \* "" : anonymous symbols are stored but not indexed
 Frames == 1..3
 Parent(f) == IF f = 2 THEN 1 ELSE 0
@@ -39,10 +39,10 @@ Resolve(frames, f, n) == IF f = 0 \/ n = "" THEN 0
 (* observation, compact: per frame <<symbols, index of "a", index of "b">>, then resolve("a"), resolve("b") from the sub-frame 2 *)
 Obs(symtab, frames) == <<[f \in Frames |-> <<frames[f].syms, frames[f].map["a"], frames[f].map["b"]>>], Resolve(frames, 2, "a"), Resolve(frames, 2, "b")>>
 Homes(symtab) == [u \in 1..Len(symtab) |-> symtab[u].home]
-Log(op, f, g, n, u, symtab, frames) == Append(hist, [op |-> op, f |-> f, g |-> g, n |-> n, u |-> u, o |-> Obs(symtab, frames), h |-> Homes(symtab)])
+Log(op, f, g, n, u, symtab, frames) == IF Closed THEN hist ELSE Append(hist, [op |-> op, f |-> f, g |-> g, n |-> n, u |-> u, o |-> Obs(symtab, frames), h |-> Homes(symtab)])
 
 Init == sy = <<>> /\ fr = [f \in Frames |-> Empty] /\ hist = <<>>
-Room == Len(hist) < MaxOps
+Room == Closed \/ Len(hist) < MaxOps
 
 AddSymbol == Room /\ Len(sy) < MaxSyms /\ \E f \in Frames, n \in Names :
     LET sy2 == Append(sy, [name |-> n, home |-> f])
@@ -76,7 +76,7 @@ Innermost == \A n \in Names \ {""} :
     /\ Resolve(fr, 2, n) = IF fr[2].map[n] > 0 THEN fr[2].syms[fr[2].map[n]] ELSE Resolve(fr, 1, n)
     /\ (Resolve(fr, 2, n) = 0 <=> \A f \in {1, 2} : \A i \in 1..Len(fr[f].syms) : sy[fr[f].syms[i]].name # n)
 (* remove(s) takes out exactly the occurrences of s, keeps the order of the rest, and leaves the other frames alone *)
-RemoveExact == [][\A f \in Frames : (hist' # hist /\ hist'[Len(hist')].op = "remove" /\ hist'[Len(hist')].f = f) =>
+RemoveExact == [][\A f \in Frames : (~Closed /\ hist' # hist /\ hist'[Len(hist')].op = "remove" /\ hist'[Len(hist')].f = f) =>
                      /\ fr'[f].syms = SelectSeq(fr[f].syms, LAMBDA x : x # hist'[Len(hist')].u)
                      /\ \A g \in Frames \ {f} : fr'[g] = fr[g]]_vars
 
